@@ -51,6 +51,8 @@ func runC19(p *eng.Prog, r *eng.Report, tier string) {
 	// (no instance on today's tree: the encoders grow their lists with append;
 	// the rule is kept alive by the stored variant C19-r14-3, thorough tier)
 	c.r.Note("C19.43: %d indexed stores through a counter inside loops", indexedFillAdvances(c, "C19.43", func(f *eng.Fn) bool { return true }))
+	c.r.Floor("C19.44", "Handle* methods of the module", handlersBuildTheirPayloads(c, "C19.44"), 20)
+	c.r.Floor("C19.45", "tests of a local error in iterator Next methods", iteratorsKeepTheirErrors(c, "C19.45"), 1)
 	nf := 0
 	nBelief := 0
 	defer func() { c.r.Floor("C19.1", "unreachable-panic beliefs checked against a library callee", nBelief, 1) }()
